@@ -20,6 +20,10 @@ Spec directives (contracts/*.skel):
   @tag <Record::field> <n>             field whose value is followed through local copies; arguments that are such a value
                                        (or *v / v.value() / v->second of it) get tag <n>
   @facet <n> has_value <C expression>  `v.has_value()` / `if (v)` on a value tagged <n>
+  @facet <n> bool <C expression>       a value tagged <n> used as a condition
+  @tagparam <fn> <param> <n>           parameter <param> of skeleton function <fn> carries tag <n>
+  @pred binop== <C expression>         built-in `a == b` (`!=` is its negation) when at least one operand is tagged; @0,@1 = tags
+  @assign <Record::field> <C macro>    `x.field = e` emits MACRO(<condition skeleton of e>)
   @throws <callee>                     the call may throw (control may leave to the enclosing handler / the caller)
   @return <fn> <C macro name>          `return e;` in <fn> emits MACRO(<condition skeleton of e>);
   @focus <fn> <string literal>         lower only the then-branch of the first `if` in <fn> whose condition mentions the
@@ -48,6 +52,7 @@ class SkelSpec:
         self.skeleton, self.events, self.preds, self.tags, self.facets, self.throws, self.returns = [], {}, {}, {}, {}, set(), {}
         self.options, self.prologue = {}, []
         self.focus = []
+        self.tagparams, self.assigns = {}, {}
         sec = None
         for raw in open(path):
             line = raw.rstrip('\n')
@@ -72,6 +77,11 @@ class SkelSpec:
                     self.throws |= set(st.split()[1:])
                 elif d == '@return':
                     self.returns[parts[1]] = parts[2]
+                elif d == '@tagparam':
+                    fn, pn, n = st.split()[1:4]
+                    self.tagparams.setdefault(fn, {})[pn] = int(n)
+                elif d == '@assign':
+                    self.assigns[parts[1]] = parts[2]
                 elif d == '@focus':
                     self.focus.append((parts[1], parts[2].strip()))
                 elif d == '@option':
@@ -324,6 +334,17 @@ class Skel:
         elif d is not None and not pat and not pp:
             cid = self.canon(d['id'])
             if cid in self.fnames or self.contains_tracked(d):
+                q = self.qname_of(cid)
+                for patp, tags in self.spec.tagparams.items():
+                    if suffix_match(q, patp):
+                        ps = params(d)
+                        off = len(args) - len(ps)          # member calls carry the object as first argument
+                        for i, pn in enumerate(ps):
+                            if pn.get('name') in tags and 0 <= i + off < len(args):
+                                got = self.tag_of(args[i + off])
+                                if got != tags[pn['name']]:
+                                    lines.append(f'{ind}__CPROVER_assert(0, "the call passes a different value for parameter '
+                                                 f'{pn["name"]} than the skeleton contract of {patp} assumes (tag {got} instead of {tags[pn["name"]]})");')
                 lines.append(f'{ind}{self.request(cid)}();')
                 self.after_call(lines, ind, True)
         if d is not None and any(c.get('kind') == 'CXX11NoReturnAttr' for c in d.get('inner', [])) or \
@@ -388,6 +409,20 @@ class Skel:
             return f'(({a}) {e["opcode"]} ({b}))'
         if k == 'CXXBoolLiteralExpr':
             return '1' if e.get('value') else '0'
+        if k == 'BinaryOperator' and e.get('opcode') in ('==', '!=') and 'binop==' in self.spec.preds:
+            ta, tb = self.tag_of(e['inner'][0]), self.tag_of(e['inner'][1])
+            if ta or tb:
+                self.used['preds'].add('binop==')
+                self.events_in(e['inner'][0], lines, ind)
+                self.events_in(e['inner'][1], lines, ind)
+                t = f'__p{self.tmp}'
+                self.tmp += 1
+                lines.append(f'{ind}_Bool {t} = {self.spec.preds["binop=="].replace("@0", str(ta)).replace("@1", str(tb))};')
+                return t if e['opcode'] == '==' else f'!({t})'
+        if k in ('MemberExpr', 'DeclRefExpr'):
+            tb0 = self.tag_of(e)
+            if (tb0, 'bool') in self.spec.facets:
+                return '(' + self.spec.facets[(tb0, 'bool')] + ')'
         if k == 'CXXMemberCallExpr':
             me = self.strip(e['inner'][0])
             if me.get('name') in ('has_value', 'operator bool') and me.get('inner'):
@@ -484,10 +519,13 @@ class Skel:
             e = n['inner'][0] if n.get('inner') else None
             macro = self.cur_return
             if macro and e is not None:
-                c = self.cond(e, lines, ind)
-                lines.append(f'{ind}{macro}({c});')
+                c = self.ret_value(e, lines, ind) if self.cur_ret_kind else self.cond(e, lines, ind)
+                t = f'__rv{self.tmp}'
+                self.tmp += 1
+                lines.append(f'{ind}_Bool {t} = {c};')
+                lines.append(f'{ind}{macro}({t});')
                 if self.cur_ret_kind:
-                    lines.append(f'{ind}__skel_ret = {c};')
+                    lines.append(f'{ind}__skel_ret = {t};')
             elif e is not None and self.cur_ret_kind:
                 c = self.ret_value(e, lines, ind)
                 if c != '__skel_ret':
@@ -592,6 +630,14 @@ class Skel:
 
     def assign(self, lhs, rhs, lines, ind):
         l = self.strip(lhs)
+        if l is not None and l.get('kind') == 'MemberExpr':
+            did = l.get('referencedMemberDecl')
+            q = self.qname_of(did, l.get('name')) if did else l.get('name', '')
+            for pat, macro in self.spec.assigns.items():
+                if suffix_match(q, pat):
+                    c = self.cond(rhs, lines, ind)
+                    lines.append(f'{ind}{macro}({c});')
+                    self.used.setdefault('assigns', set()).add(pat)
         if l is not None and l.get('kind') == 'DeclRefExpr':
             vid = l['referencedDecl']['id']
             t = self.tag_of(rhs)
@@ -714,6 +760,11 @@ class Skel:
         self.optvars = {}
         self.cur_ret_kind = self.ret_kind_of(node)
         self.cur_return = None
+        for pat, tags in self.spec.tagparams.items():
+            if suffix_match(q, pat):
+                for pnode in params(node):
+                    if pnode.get('name') in tags:
+                        self.alias[pnode['id']] = tags[pnode['name']]
         for pat, macro in self.spec.returns.items():
             if suffix_match(q, pat):
                 self.cur_return = macro
